@@ -626,16 +626,18 @@ type outcome struct {
 	misplaced bool
 	trueRows  int
 	rows      int
+	sig       string // plan signature (history family only)
 }
 
 type worker struct {
-	rig   *planrig.Rig
-	u     *universe
-	l     planrig.Layout
-	all   []int
-	cache map[string]*outcome
-	nRun  int
-	pos   map[int]int // table index -> position in all
+	rig     *planrig.Rig
+	u       *universe
+	l       planrig.Layout
+	all     []int
+	cache   map[string]*outcome
+	nRun    int
+	pos     map[int]int // table index -> position in all
+	wantSig bool
 }
 
 func (w *worker) rowText(code int) string {
@@ -734,12 +736,17 @@ func (w *worker) runSQL(sql string) *outcome {
 	p, err := w.rig.PlanStmt(planrig.DB, sql, stmt)
 	if err != nil {
 		o.rejected = err.Error()
+		o.sig = "ERR: " + o.rejected
 		return o
 	}
 	rt, err := w.rig.RouteOf(p)
 	if err != nil {
 		o.rejected = err.Error()
+		o.sig = "ERR: " + o.rejected
 		return o
+	}
+	if w.wantSig {
+		o.sig = rt.Signature()
 	}
 	o.route = rt.Indexes()
 	for idx := range o.needRow {
@@ -1051,7 +1058,21 @@ func runTask(r *ev.Run, t task, st *stats, routes map[string]struct{}) {
 			}
 		}
 		if len(o.missing) > 0 {
-			w.report(r, t.mode, t.form, c, o)
+			// the worker's router has planned every earlier case of this task: decide on a
+			// fresh router whether the statement itself is mis-routed or an earlier plan left
+			// something behind in the shared rule objects
+			fw := newWorker(t.l, t.mode)
+			if fo := fw.run(t.form, c); fo.rejected == "" && len(fo.missing) > 0 {
+				fw.report(r, t.mode, t.form, c, fo)
+			} else {
+				sql := renderSQL(t.form, t.l.Key(), c)
+				r.Violation(ev.Witness{
+					Summary: fmt.Sprintf("%s: %s → route %v misses table %d (row %s) — only on the router that had planned the earlier cases of this enumeration task; on a fresh router the route is correct, so an earlier plan changed shared router state (see the history family for a minimal history)", t.l, sql, o.route, o.missing[0], w.rowText(o.needRow[o.missing[0]])),
+					Features: map[string]string{"kind": "missing_table_after_history", "rule": t.l.Rule, "mode": t.mode, "hist": "enumeration_order", "stmt": t.form,
+						"op": "-", "not": "-", "col": "-", "litclass": "-", "missing": "-", "spell": "-"},
+					Case: Case{Layout: t.l, Mode: t.mode, Form: t.form, Cond: c, SQL: sql},
+				})
+			}
 		}
 	}
 }
@@ -1065,6 +1086,19 @@ func main() {
 	r.Assume("placement of a row = the rule's own Rule.FindTableIndex on a configured table (checked against Mycat / the configured intervals by C08 / C09); process time zone is UTC for unix-timestamp keys")
 	r.Assume("slice / database of a table are derived from the layout the rig wrote, independently of the router; a statement rejected by BuildPlan (error or recovered panic) is accepted")
 
+	var probe struct {
+		Family string `json:"family"`
+	}
+	if r.ReplayCase(&probe) && probe.Family == "history" {
+		var hc HistCase
+		r.ReplayCase(&hc)
+		hb := newWorker(hc.Layout, hc.Mode)
+		_, _, fresh := histPlan(hb, nil, hc.Stmt)
+		bad := checkHistory(r, hb, hc.Mode, hc.Hist, hc.Stmt, fresh, false)
+		fmt.Printf("replay (history): %d statement(s), then %q: violation=%v\n", len(hc.Hist), hc.Stmt.SQL, bad)
+		r.Set("evaluations", 1)
+		r.Finish()
+	}
 	var c Case
 	if r.ReplayCase(&c) {
 		w := newWorker(c.Layout, c.Mode)
@@ -1146,11 +1180,65 @@ func main() {
 		}
 	}
 
+	// history family: S after 1-2 other statements on the same router (see history.go)
+	type histTask struct {
+		l    planrig.Layout
+		mode string
+		si   int
+	}
+	var histTasks []histTask
+	for _, rule := range planrig.ShardRuleTypes {
+		l := planrig.Layout{Rule: rule, Slices: 2, TablesPerSlice: 2}
+		var hp map[string]string
+		if rule == "mycat_murmur" { // building the 160-fold consistent-hash ring dominates a fresh router
+			hp = map[string]string{"virtual_bucket_times": "8"}
+			l.Params = hp
+		}
+		shapes := []planrig.Layout{l}
+		if !quick {
+			shapes = append(shapes, planrig.Layout{Rule: rule, Slices: 3, TablesPerSlice: 1, Params: hp}, planrig.Layout{Rule: rule, Slices: 1, TablesPerSlice: 4, Params: hp})
+		}
+		for _, hl := range shapes {
+			modes := modesOf(hl)
+			if quick {
+				modes = modes[:1]
+			}
+			for _, mode := range modes {
+				n := len(histStatements(newWorker(hl, mode)))
+				for si := 0; si < n; si++ {
+					histTasks = append(histTasks, histTask{hl, mode, si})
+				}
+			}
+		}
+	}
+
+	switch os.Getenv("C01_FAMILY") { // development aid: run one family only (evidence then says so)
+	case "history":
+		tasks = nil
+		r.Capped("C01_FAMILY=history: pristine-instance families skipped")
+	case "pristine":
+		histTasks = nil
+		r.Capped("C01_FAMILY=pristine: history family skipped")
+	}
+
 	var mu sync.Mutex
 	var total stats
+	var htotal histStats
 	routes := map[string]struct{}{}
 	var done int64
-	n := enum.Parallel(len(tasks), r.TimeUp, func(i int) {
+	n := enum.Parallel(len(tasks)+len(histTasks), r.TimeUp, func(i int) {
+		if i >= len(tasks) {
+			ht := histTasks[i-len(tasks)]
+			var hs histStats
+			runHistory(r, ht.l, ht.mode, ht.si, &hs)
+			mu.Lock()
+			htotal.histories += hs.histories
+			htotal.plans += hs.plans
+			htotal.cond += hs.cond
+			htotal.diffOnly += hs.diffOnly
+			mu.Unlock()
+			return
+		}
 		var st stats
 		local := map[string]struct{}{}
 		runTask(r, tasks[i], &st, local)
@@ -1168,7 +1256,7 @@ func main() {
 		}
 		mu.Unlock()
 	})
-	if n < len(tasks) || r.TimeUp() {
+	if n < len(tasks)+len(histTasks) || r.TimeUp() {
 		r.Capped(fmt.Sprintf("%d of %d (layout, type mode, statement form, tree family) tasks completed before the time budget", n, len(tasks)))
 	}
 	// non-vacuity: every prunable layout must have shown several different routes
@@ -1177,7 +1265,7 @@ func main() {
 		perLayout[k[:strings.Index(k, "|")]]++
 	}
 	for _, l := range all {
-		if perLayout[l.String()] < 3 && !r.TimeUp() {
+		if perLayout[l.String()] < 3 && !r.TimeUp() && len(tasks) > 0 {
 			ev.Fatalf("vacuous: layout %v produced only %d distinct routes", l, perLayout[l.String()])
 		}
 	}
@@ -1191,7 +1279,12 @@ func main() {
 			fmt.Printf("SIG %6d  %s\n        e.g. %s\n", debugSigs[k], k, debugEx[k])
 		}
 	}
-	r.Set("evaluations", total.evals)
+	r.Set("history_cases", htotal.histories)
+	r.Set("history_plans", htotal.plans)
+	r.Set("history_cases_with_inclusion_oracle", htotal.cond)
+	r.Set("history_cases_differential_only", htotal.diffOnly)
+	r.Set("history_rule", "history family: per rule type (2x2 layout; thorough also 3x1 and 1x4, both key modes) 30 representative statements (SELECT/UPDATE/DELETE/JOIN with = < >= IN NOT IN BETWEEN NOT BETWEEN OR AND; INSERT VALUES single/multi-row, INSERT SET, REPLACE, ON DUPLICATE, insert into the linked child; global SELECT/UPDATE/INSERT; unsharded SELECT/INSERT, other database); each statement S is planned on a fresh router after every one-statement prefix over the other 29 and every ordered two-statement prefix over a 11-statement alphabet; oracles: inclusion oracle for S and plan(S after H) == plan(S fresh)")
+	r.Set("evaluations", total.evals+htotal.histories)
 	r.Set("distinct_nontrivial", total.nontrivial)
 	r.Set("rejected_statements", total.rejected)
 	r.Set("rows_evaluated", total.rowsChecked)
